@@ -276,6 +276,12 @@ func c09Docs(repo string, maxBytes int) []c09Doc {
 			`<script>var s = "<!--", t = "<script>", u = "<\/script>";</script><p>after</p>`,
 			`<p><&#115;cript>alert(1)<&#47;script></p><title><&#47;title>x</title>`,
 			`<iframe><b title="&lt;/iframe&gt;">x</b></iframe><p>after</p>`,
+			// script-data double-escaped state (`<!--` … `<script`): the `</script` that balances it sits in a comment the JS
+			// minifier removes / a string it rewrites; `<!--<script` survives in a regex literal or a kept /*! */ comment
+			`<script>var re=/<!--<script>/;/* </script> */ f()</script><p>x</p><script>g()</script>`,
+			`<script>/*! <!--<SCRIPT > */ var s = "</script>"; f()</script><p>x</p>`,
+			`<script>var re=/<!--<script\/>/i; // </script >` + "\n" + `f()</script><p>x</p><textarea> a </textarea>`,
+			`<script>if(/<!--[\s\S]*<script /.test(d)){/* </SCRIPT/ */h()}</script><p>y</p>`,
 		},
 		"text/css":               {`@charset "utf-8";@import "a.css";@media (min-width:100px){a:hover>b.c#d[e="f"]{margin:0px 0px;color:#ff0000;background:url("x y.png") no-repeat 0% 0%;font:bold 12px/1 "Arial",sans-serif;content:"\"}"}}`},
 		"application/javascript": {"function f(a,b){if(a){return b+1}else{return `x${a}`}}var x=/re[/]/g.test('s')?1e3:0x10;for(let i=0;i<3;i++){x+=i}class A{#p=1;static m(){}}a = b + +c; d = e - -f; g = h / /re/.exec('x'); i = j < !--k; l = 1..toString(); m = 2 .toString()\nlet n = a\n++b\nvar o = a ?? (b || c); p = a?.[0]?.(1)", "x=0x10.toString(2);y=0b101.toFixed(1);z=((5)).toFixed(2);w=(5.0).a;v=1e3.b;u=0o17.c;t=(1n).toString()"},
